@@ -279,15 +279,9 @@ def check(tier):
                       'the alphabet %s is %r, the standard orders the character values as %r' % (cname, got_c, cval), what='%s.%s' % (name, cname))
         if 'structure_classes' in sp:
             for k, chars in sp['structure_classes'].items():
-                st = I.iban_structs
-                tree = prog.mods[mn].funcs.get('_struct_to_re')
-                table = None
-                for n in ast.walk(tree) if tree is not None else []:
-                    if isinstance(n, ast.Dict) and all(isinstance(x, ast.Constant) for x in n.keys):
-                        table = {x.value: v.value for x, v in zip(n.keys, n.values) if isinstance(v, ast.Constant)}
-                got_cls = None
-                if table and k in table:
-                    got_cls = ''.join(sorted(set(ch for s_ in expand(table[k]) for ch in s_[0])))
+                cl_ = I.iban_letters.get(k)
+                ex_ = I.B.exact_chars(cl_) if cl_ is not None else None
+                got_cls = ''.join(sorted(ex_)) if ex_ is not None else None
                 rep.check(got_cls == ''.join(sorted(chars)), 'C07.envelope', file, '_struct_to_re', 'IBAN structure class %r' % k, 0,
                           'structure letter %r admits %r, the IBAN registry defines it as %r' % (k, got_cls, ''.join(sorted(chars))), what='IBAN %s = %s' % (k, chars[:20]))
     rep.expect_at_least('C07.envelope', 150, 'position obligations')
